@@ -602,3 +602,104 @@ def c_cg_sample(c, ncp, ncr, has_type):
             a = t.cross_l[i].got
             c.prove("type cross receives exactly this sample's iff result",
                     a is not None and len(a) == 1 and a[0] is inst.cross_l[i].iff_val_cache)
+
+
+# ---- shapes: equals / clone / registry matching (C12) ------------------------------------------------------------------
+def _bin_variants():
+    from vsc.model.coverpoint_bin_array_model import CoverpointBinArrayModel as Arr
+    from vsc.model.coverpoint_bin_single_val_model import CoverpointBinSingleValModel as Val
+    from vsc.model.coverpoint_bin_single_range_model import CoverpointBinSingleRangeModel as Rng
+    from vsc.model.coverpoint_bin_single_bag_model import CoverpointBinSingleBagModel as Bag
+    from vsc.model.coverpoint_bin_collection_model import CoverpointBinCollectionModel as Col
+    from vsc.model.coverpoint_bin_enum_model import CoverpointBinEnumModel as En
+    from vsc.model.rangelist_model import RangelistModel as RL
+
+    def col(name, parts):
+        c_ = Col(name)
+        for p in parts:
+            c_.add_bin(p())
+        return c_
+    V = [
+        ("arr a 0..3", lambda: Arr("a", 0, 3)), ("arr a 0..4", lambda: Arr("a", 0, 4)), ("arr a 1..3", lambda: Arr("a", 1, 3)),
+        ("arr b 0..3", lambda: Arr("b", 0, 3)),
+        ("val a 1", lambda: Val("a", 1)), ("val a 2", lambda: Val("a", 2)),
+        ("rng a 0..3", lambda: Rng("a", 0, 3)), ("rng a 0..4", lambda: Rng("a", 0, 4)),
+        ("bag a [0..1,3..3]", lambda: Bag("a", RL([[0, 1], [3, 3]]))), ("bag a [0..1]", lambda: Bag("a", RL([[0, 1]]))),
+        ("bag a [0..1,3..4]", lambda: Bag("a", RL([[0, 1], [3, 4]]))),
+        ("col a [v1,v2,v4]", lambda: col("a", [lambda: Val("a[0]", 1), lambda: Val("a[1]", 2), lambda: Val("a[2]", 4)])),
+        ("col a [v1,v2,v4,v8]", lambda: col("a", [lambda: Val("a[0]", 1), lambda: Val("a[1]", 2), lambda: Val("a[2]", 4), lambda: Val("a[3]", 8)])),
+        ("col a [v1,v2]", lambda: col("a", [lambda: Val("a[0]", 1), lambda: Val("a[1]", 2)])),
+        ("enum A 1", lambda: En("A", 1)), ("enum A 2", lambda: En("A", 2)),
+    ]
+    return V
+
+
+def _cp_variants():
+    V = _bin_variants()
+    keys = [k for k, _ in V]
+    out = []
+    for i in range(len(V)):
+        out.append(((keys[i],), (), ()))
+    out += [((keys[0], keys[4]), (), ()), ((keys[0],), (keys[4],), ()), ((keys[0],), (), (keys[4],)),
+            ((keys[0], keys[4], keys[5]), (), ()), ((keys[0],), (keys[4], keys[5]), ()), ((keys[4], keys[0]), (), ()),
+            ((keys[0],), (keys[5],), ()), ((keys[0],), (), (keys[5],))]
+    return out
+
+
+def _mk_cp(desc, name="cp"):
+    from vsc.model.coverpoint_model import CoverpointModel
+    V = dict(_bin_variants())
+    cp = CoverpointModel(None, name, None)
+    for k in desc[0]:
+        cp.add_bin_model(V[k]())
+    for k in desc[1]:
+        cp.add_ignore_bin_model(V[k]())
+    for k in desc[2]:
+        cp.add_illegal_bin_model(V[k]())
+    return cp
+
+
+@contract("coverage.equals_clone", ["C12"],
+          ["vsc.model.coverpoint_model.CoverpointModel.equals", "vsc.model.coverpoint_model.CoverpointModel.clone",
+           "vsc.model.covergroup_model.CovergroupModel.equals", "vsc.model.covergroup_model.CovergroupModel.clone",
+           "vsc.model.coverpoint_cross_model.CoverpointCrossModel.equals",
+           "vsc.model.coverpoint_bin_collection_model.CoverpointBinCollectionModel.equals",
+           "vsc.model.coverpoint_bin_array_model.CoverpointBinArrayModel.equals",
+           "vsc.model.coverpoint_bin_single_bag_model.CoverpointBinSingleBagModel.equals",
+           "vsc.model.coverpoint_bin_single_range_model.CoverpointBinSingleRangeModel.equals",
+           "vsc.model.coverpoint_bin_single_val_model.CoverpointBinSingleValModel.equals",
+           "vsc.model.rangelist_model.RangelistModel.equals", "vsc.impl.coverage_registry.CoverageRegistry.register_cg"],
+          lambda tier, seed: [(i,) for i in range(len(_cp_variants()))], kind="bounded",
+          bound="24 coverpoint shapes built from 16 bin-model variants (array / value / range / bag / collection / enum bins differing in "
+                "bounds, names and length; regular, ignore and illegal lists of length 0..3, also permuted); every ordered pair compared")
+def c_equals_clone(c, i):
+    from vsc.model.covergroup_model import CovergroupModel
+    from vsc.impl.coverage_registry import CoverageRegistry
+    descs = _cp_variants()
+    a = _mk_cp(descs[i])
+    for j, dj in enumerate(descs):
+        b = _mk_cp(dj)
+        c.check("two coverpoints compare equal iff they have the same set of bins (kinds, bounds, order; regular / ignore / illegal)",
+                bool(a.equals(b)) == (i == j), info="%r vs %r -> %s" % (descs[i], dj, a.equals(b)))
+    cl = a.clone()
+    a2 = _mk_cp(descs[i])
+    c.check("a clone has the same shape as its source", bool(cl.equals(a2)) and bool(a2.equals(cl)))
+    cl.parent = CgStub()
+    cl.finalize()
+    c.check("a clone starts with zero hits", all(h == 0 for h in cl.hit_l + cl.hit_ignore_l + cl.hit_illegal_l))
+    # registry: an instance attaches to the type of its own shape, any other shape gets its own type
+    CoverageRegistry.clear()
+    rg = CoverageRegistry.inst()
+    types = {}
+    order = [i, (i + 1) % len(descs), i, (i + 5) % len(descs), (i + 1) % len(descs)]
+    for k in order:
+        cg = CovergroupModel("cg")
+        cg.add_coverpoint(_mk_cp(descs[k]))
+        cg.finalize()
+        rg.register_cg(cg)
+        types.setdefault(k, cg.type_cg)
+        c.check("an instance attaches to the type whose shape equals its own, otherwise a new type is created",
+                cg.type_cg is types[k] and all((types[x] is types[k]) == (x == k) for x in types),
+                info="shapes %r" % ([descs[x] for x in types],))
+    c.check("one registered type per distinct shape", len(rg.covergroup_types()) == len(set(order)))
+    CoverageRegistry.clear()
